@@ -187,6 +187,9 @@ type Listener struct {
 	once    sync.Once
 	Accepts int
 	Log     *Log
+	// TempWhenClosed: once closed, Accept keeps reporting a TEMPORARY error (a listener may: "use of closed connection" is
+	// only a convention) instead of ErrListenerClosed
+	TempWhenClosed bool
 }
 
 func NewListener() *Listener {
@@ -195,15 +198,27 @@ func NewListener() *Listener {
 
 func (l *Listener) Push(s AcceptStep) { l.steps <- s }
 
+func (l *Listener) closedErr() error {
+	l.mu.Lock()
+	l.Accepts++
+	t := l.TempWhenClosed
+	l.mu.Unlock()
+	if t {
+		l.Log.Add("accept:temporary-after-close")
+		return tempErr{}
+	}
+	return ErrListenerClosed
+}
+
 func (l *Listener) Accept() (net.Conn, error) {
 	select {
 	case <-l.closed:
-		return nil, ErrListenerClosed
+		return nil, l.closedErr()
 	default:
 	}
 	select {
 	case <-l.closed:
-		return nil, ErrListenerClosed
+		return nil, l.closedErr()
 	case s := <-l.steps:
 		l.mu.Lock()
 		l.Accepts++
